@@ -34,17 +34,18 @@ const (
 
 // World fixes one genesis state, the node configuration and the constants recipes use.
 type World struct {
-	Name     string
-	Proto    int    // protocol version active from genesis (1 or 2)
-	Fee      uint64 // every fee parameter
-	Mint     uint64 // Config.InitialTokensPerBlock
-	BPH      uint64 // Config.BlocksPerHalvening
-	MinOrd   uint64 // MinimumOrderSize
-	MinValS  uint64 // value the "min stake up" recipe sets for validators (V2 < it <= V1)
-	MinDelS  uint64 // ... for delegates (V3 < it)
-	Faucet   int    // key index of the faucet account, -1 none
-	NSWindow uint64 // non-sign window (default 2)
-	FreeSend bool   // the send fee parameter is 0
+	Name          string
+	Proto         int    // protocol version active from genesis (1 or 2)
+	Fee           uint64 // every fee parameter
+	Mint          uint64 // Config.InitialTokensPerBlock
+	BPH           uint64 // Config.BlocksPerHalvening
+	MinOrd        uint64 // MinimumOrderSize
+	MinValGenesis uint64 // MinimumStakeForValidators at genesis (0 = the default)
+	MinValS       uint64 // value the "min stake up" recipe sets for validators (V2 < it <= V1)
+	MinDelS       uint64 // ... for delegates (V3 < it)
+	Faucet        int    // key index of the faucet account, -1 none
+	NSWindow      uint64 // non-sign window (default 2)
+	FreeSend      bool   // the send fee parameter is 0
 	// Class is non-empty for a genesis no real network could have (violations found in it get a separate signature class).
 	Class    string
 	Accounts map[int]uint64
@@ -96,7 +97,7 @@ func GetWorld(spec string) *World {
 		{Key: KV3, Stake: 500, Committees: []uint64{1, 2}, OutputKey: -1, Delegate: true, Compound: true},
 	}
 	switch name {
-	case "small", "faucet", "free", "longwin":
+	case "small", "faucet", "free", "longwin", "minstake":
 		w.Accounts = map[int]uint64{KV0: 1000, KV1: 1000, KV2: 1000, KV3: 1000, KA4: 5000, KA5: 3000, KA6: 2000, KA7: 1000}
 		w.Vals = smallVals
 		w.Pools = []*fsm.Pool{{Id: lib.DAOPoolID, Amount: 100}, lp(1000)}
@@ -105,6 +106,11 @@ func GetWorld(spec string) *World {
 		}
 		if name == "longwin" {
 			w.NSWindow = 5 // longer than the unstaking period (2): a validator can leave the chain INSIDE a non-sign window
+		}
+		if name == "minstake" {
+			// a minimum validator stake in force from genesis, between V1's stake (1000) and what one double-sign slash
+			// leaves of it (900): the slash itself starts V1's forced unstaking (SlashValidator's below-minimum branch)
+			w.MinValGenesis = 950
 		}
 		if name == "free" {
 			w.FreeSend = true // send fee 0 (all fees 0 would be an empty parameter object): a send touches only sender and recipient
@@ -147,6 +153,9 @@ func (w *World) Genesis() *fsm.GenesisState {
 		}
 		v.NonSignSlashPercentage, v.DoubleSignSlashPercentage, v.MaxSlashPerCommittee = 5, 10, 15
 		v.MinimumOrderSize = w.MinOrd
+		if w.MinValGenesis != 0 {
+			v.MinimumStakeForValidators = w.MinValGenesis
+		}
 		f := p.Fee
 		defer func() { f.SendFee = w.sendFee() }()
 		f.SendFee, f.StakeFee, f.EditStakeFee, f.UnstakeFee, f.PauseFee, f.UnpauseFee = w.Fee, w.Fee, w.Fee, w.Fee, w.Fee, w.Fee
